@@ -1,6 +1,7 @@
 (** C08 — external representations round-trip: property theorems only. *)
 From Coq Require Import ZArith List.
-From ChibiV Require Import C08.Datum C08.Tables Gen.C08_Tables Gen.C08_Leaf C08.Write C08.Read C08.Proofs C08.Proofs2 C08.Labels C08.LabelProofs.
+From ChibiV Require Import C08.Datum C08.Tables Gen.C08_Tables Gen.C08_Leaf C08.Write C08.Read C08.Proofs C08.Proofs2 C08.Labels C08.LabelProofs
+  C08.Model3 C08.CharProofs C08.CompoundProofs C08.FloProofs C08.LabelVecProofs C08.Numbers C08.NumberProofs.
 Import ListNotations.
 Local Open Scope Z_scope.
 
@@ -54,3 +55,75 @@ Theorem label_roundtrip : forall t c', novec t = true -> wf 0 t = Some c' ->
   read_labels (wr t) = LOk (g2l t, []).
 Proof. exact label_roundtrip_ok. Qed.
 Print Assumptions label_roundtrip.
+
+(* ---- round 3 ---- *)
+
+(* characters at reader level, both writers: for every code point c <= U+10FFFF (all scalar values), the
+   text of sexp_write_one's character arm (names of the regenerated table, printable ASCII, x + 2/4/6 hex
+   digits) and the text (scheme write) emits (names of lib/srfi/38.scm's own table, else the raw character:
+   control characters raw, UTF-8 for non-ASCII, decoded by the regenerated sexp_decode_utf8_char), followed
+   by ANY continuation that starts with a delimiter, reads back as Chr c and leaves the continuation *)
+Theorem char_roundtrip : forall dec2flo f c rest, 0 <= c <= 1114111 -> at_delim rest = true ->
+  read_raw dec2flo (S f) (write_char c ++ rest) = Ok (TDatum (Chr c)) rest /\
+  read_raw dec2flo (S f) (swrite_char c ++ rest) = Ok (TDatum (Chr c)) rest.
+Proof. exact char_roundtrip_ok. Qed.
+Print Assumptions char_roundtrip.
+
+(* the compound datum theorem, by structural induction: every datum built from integers, characters,
+   strings, symbols, booleans, () with pairs (proper and dotted lists), vectors and bytevectors - no
+   flonum leaves (wfd0: bytes are bytes, characters are code points) - written by the model of
+   sexp_write_one and followed by a delimiter or the end of input, is read back by the model of
+   sexp_read_raw as the same datum, leaving the continuation.  Visible premise on the reader's fuel:
+   height d + 2 <= f (height = height as a binary tree of pairs; a vector costs 2 + its length). *)
+Theorem list_vector_bytes_roundtrip : forall fmt_g scan_g dec2flo d f rest,
+  wfd0 d -> (height d + 2 <= f)%nat -> at_delim rest = true ->
+  read_raw dec2flo f (write fmt_g scan_g d ++ rest) = Ok (TDatum d) rest.
+Proof. exact list_vector_bytes_roundtrip_ok. Qed.
+Print Assumptions list_vector_bytes_roundtrip.
+
+(* flonums, given libc: under the explicit hypotheses libc_flonum (C08/FloProofs.v: shape of printf
+   "%.{15,16,17}lg" output, sscanf "%lg" = strtod on it, strtod of "-"u = -strtod u >= 0 for unsigned u,
+   strtod is a function of the denoted decimal number, strtod (printf "%.17lg" x) = x, "%.0f" of the integer
+   part converts back) the writer's try-15/16/17 selection and ".0" patching composed with the reader's
+   tokenizer and its strtod path (dec2flo_strtod, fix 2a27451) is the identity on the bit pattern of every
+   double; every NaN (any sign, any payload) comes back as 0x7FF8000000000000 (flo_canon) *)
+Theorem flonum_roundtrip_given : forall fmt_g scan_g strtod fmt_0f i2d old_arith,
+  libc_flonum fmt_g scan_g strtod fmt_0f i2d ->
+  forall b f rest, 0 <= b < TWO64 -> at_delim rest = true ->
+  read_raw (dec2flo_strtod strtod fmt_0f i2d old_arith) (S f) (write_flo fmt_g scan_g b ++ rest) =
+  Ok (TDatum (Flo (flo_canon b))) rest.
+Proof. exact flonum_roundtrip_given_ok. Qed.
+Print Assumptions flonum_roundtrip_given.
+
+(* the compound theorem with flonum leaves (any double that is not a NaN), under the same hypotheses *)
+Theorem datum_roundtrip_flonums : forall fmt_g scan_g strtod fmt_0f i2d old_arith,
+  libc_flonum fmt_g scan_g strtod fmt_0f i2d ->
+  forall d f rest, wfd flo_leaf_ok d -> (height d + 2 <= f)%nat -> at_delim rest = true ->
+  read_raw (dec2flo_strtod strtod fmt_0f i2d old_arith) f (write fmt_g scan_g d ++ rest) = Ok (TDatum d) rest.
+Proof. exact datum_roundtrip_flonums_ok. Qed.
+Print Assumptions datum_roundtrip_flonums.
+
+(* datum labels, graphs WITH vectors: label_roundtrip without the novec premise (labelled vectors, vectors
+   nested in vectors, references to open and closed labels from inside vectors, vectors as dotted tails) *)
+Theorem label_roundtrip_vec : forall t c', wf 0 t = Some c' -> read_labels (wr t) = LOk (g2l t, []).
+Proof. exact label_roundtrip_vec_ok. Qed.
+Print Assumptions label_roundtrip_vec.
+
+(* exact rationals at token level (C08/Numbers.v: the '/' arm of sexp_read_number with sexp_ratio_normalize's
+   Euclid loop, the '+'/'-' arm's negation; fixnum/bignum split abstracted to Z as in integer_roundtrip):
+   n/d in lowest terms, d > 1, any sign of n, written as <n>/<d> and followed by a delimiter, reads back *)
+Theorem ratio_roundtrip : forall f n d rest,
+  1 < d -> Z.gcd n d = 1 -> at_delim rest = true -> (2 <= f)%nat ->
+  read_num_token f (write_xnum (XReal (ERat n d)) ++ rest) = NOk (XReal (ERat n d)) rest.
+Proof. exact ratio_roundtrip_ok. Qed.
+Print Assumptions ratio_roundtrip.
+
+(* exact complex numbers at token level (sexp_write_one's SEXP_COMPLEX arm; sexp_read_complex_tail, the
+   right-nested recursion sexp_read_number -> complex tail -> sexp_read_number, the negation of the real part
+   in the '-' arm): parts integers or ratios in lowest terms, imaginary part not exact 0; covers a+bi, a-bi,
+   a+i, a-i, 0+bi, 1/2-3/4i, negative real parts; polar notation excluded *)
+Theorem exact_complex_roundtrip : forall f re im rest,
+  wf_enum re -> wf_enum im -> im <> EInt 0 -> at_delim rest = true -> (4 <= f)%nat ->
+  read_num_token f (write_xnum (XCpx re im) ++ rest) = NOk (XCpx re im) rest.
+Proof. exact complex_roundtrip_ok. Qed.
+Print Assumptions exact_complex_roundtrip.
